@@ -1,7 +1,9 @@
 // E8 Preflight correspondence harness (C12): the real helper functions of streamable_headers.go /
 // streamableAccepts on generated inputs, whole ServeHTTP calls (streamable stateless / stateful, SSE)
 // through a recording ResponseWriter with every server handler and middleware counting what reached
-// it, and the real streamable client against the real stateless server.
+// it, and the real streamable client against the real stateless server - call by call (kind e2e) and as one session
+// over time with cached tools/list pages, TTLs, list_changed and re-registered tools (kind seq:
+// zz_verif_preflight_seq_test.go).
 //
 // Record format: see ENGINE_GUIDE.md. Every op starts with a token "@<kind>:<seed>:<index>" that the Lean
 // driver ignores; VERIF_REPLAY uses it to regenerate exactly that case.
@@ -20,6 +22,7 @@ import (
 	"net/http"
 	"net/http/httptest"
 	"os"
+	"slices"
 	"sort"
 	"strconv"
 	"strings"
@@ -2233,6 +2236,33 @@ func pfPropsFromJSON(data json.RawMessage) []*pfProp {
 	return out
 }
 
+// pfListsSupported: the error data of a -32022 answer is {"supported":[…],"requested":…} with a non-empty list of
+// versions this SDK implements.
+func pfListsSupported(body []byte) bool {
+	var resp struct {
+		Error *struct {
+			Data *UnsupportedProtocolVersionData `json:"data"`
+		} `json:"error"`
+	}
+	if json.Unmarshal(body, &resp) != nil || resp.Error == nil || resp.Error.Data == nil {
+		return false
+	}
+	d := resp.Error.Data
+	if len(d.Supported) == 0 {
+		return false
+	}
+	for _, v := range d.Supported {
+		ok := false
+		for _, k := range supportedProtocolVersions {
+			ok = ok || v == k
+		}
+		if !ok {
+			return false
+		}
+	}
+	return true
+}
+
 // run executes the case against the real handler and returns (op tokens, observation, tags).
 func (c *pfHTTPCase) run() (op, obs string, tags []string) {
 	cnt := &pfCounters{}
@@ -2561,6 +2591,38 @@ func (c *pfHTTPCase) run() (op, obs string, tags []string) {
 			}
 			if json.Unmarshal(rec.Body.Bytes(), &resp) == nil && resp.Error != nil {
 				code = strconv.FormatInt(resp.Error.Code, 10)
+				if resp.Error.Code == CodeUnsupportedProtocolVersion && !pfListsSupported(rec.Body.Bytes()) {
+					// "unsupported-version (-32022, listing the supported versions)": an answer with that code whose data
+					// does not list versions of this SDK is printed as another code
+					code = "-3202299"
+				}
+			}
+		}
+		// A request whose version header names an unknown version that is not older than 2026-07-28 passes the HTTP front
+		// door so that the session can refuse it with JSON-RPC -32022 / -32602.  On an established stateful session that
+		// answer travels as an event of the POST's stream (HTTP 200), not as an HTTP 400: for these requests the error code
+		// of a 200 answer (SSE event or JSON body) is printed too.
+		if hv := c.version; rec.Code == http.StatusOK && c.kind != "sse" && hv >= protocolVersion20260728 && !slices.Contains(supportedProtocolVersions, hv) {
+			payload := rec.Body.Bytes()
+			if strings.HasPrefix(rec.Header().Get("Content-Type"), "text/event-stream") {
+				payload = nil
+				for _, line := range bytes.Split(rec.Body.Bytes(), []byte("\n")) {
+					if rest, ok := bytes.CutPrefix(line, []byte("data:")); ok && bytes.Contains(rest, []byte(`"error"`)) {
+						payload = bytes.TrimSpace(rest)
+					}
+				}
+			}
+			var resp struct {
+				Error *struct {
+					Code int64 `json:"code"`
+				} `json:"error"`
+			}
+			if payload != nil && json.Unmarshal(payload, &resp) == nil && resp.Error != nil &&
+				(resp.Error.Code == CodeUnsupportedProtocolVersion || resp.Error.Code == jsonrpc.CodeInvalidParams) {
+				code = strconv.FormatInt(resp.Error.Code, 10)
+				if resp.Error.Code == CodeUnsupportedProtocolVersion && !pfListsSupported(payload) {
+					code = "-3202299"
+				}
 			}
 		}
 		allow := "-"
@@ -2722,7 +2784,7 @@ func pfCanon(j *pfJ) string {
 
 // ---------------------------------------------------------------------------------------------
 
-var pfKinds = []string{"accepts", "codec", "decode", "unprim", "peq", "annot", "gen", "vph", "http", "e2e", "params"}
+var pfKinds = []string{"accepts", "codec", "decode", "unprim", "peq", "annot", "gen", "vph", "http", "e2e", "params", "seq", "vm"}
 
 func pfRngFor(seed int64, kind string, idx int) *rand.Rand {
 	k := 0
@@ -2752,6 +2814,14 @@ func pfRunCase(t *testing.T, out *verifOut, kind string, seed int64, idx int, ep
 	case "http":
 		c := g.httpCase()
 		op, obs, tags = c.run()
+	case "vm":
+		// a row of the version matrix (zz_verif_preflight_versions_test.go): the index is the row
+		pfRunVersionRow(out, idx, extraTag)
+		return
+	case "seq":
+		// one session over time (zz_verif_preflight_seq_test.go); records carry no @-token: their replay is literal
+		pfqRun(t, out, cs, "", g.pfqGenerate(), extraTag)
+		return
 	case "e2e":
 		schema := g.validSchema()
 		e := pfNewE2E(t, schema)
@@ -2798,8 +2868,13 @@ func pfReplay(t *testing.T, out *verifOut, path, tag string) {
 		t.Fatal(err)
 	}
 	done := map[string]bool{}
+	var seqLines []string
 	for _, ln := range strings.Split(string(b), "\n") {
 		f := strings.Fields(ln)
+		if len(f) > 0 && f[0] == "seq" {
+			seqLines = append(seqLines, ln) // a literal session (kind `seq`): interpreted line by line, below
+			continue
+		}
 		if len(f) == 0 || !strings.HasPrefix(f[0], "@") || done[f[0]] {
 			continue
 		}
@@ -2815,6 +2890,10 @@ func pfReplay(t *testing.T, out *verifOut, path, tag string) {
 			epoch, _ = strconv.Atoi(p[3])
 		}
 		pfRunCase(t, out, p[0], seed, idx, epoch, tag)
+	}
+	if len(seqLines) > 0 {
+		name := path[strings.LastIndex(path, "/")+1:]
+		pfqRun(t, out, "seq:"+strings.TrimSuffix(name, ".ops"), "", seqLines, tag)
 	}
 }
 
@@ -2839,15 +2918,19 @@ func TestVerifPreflight(t *testing.T) {
 	counts := map[string]int{
 		"accepts": scale(2500, 40000), "codec": scale(2500, 40000), "decode": scale(1500, 20000), "unprim": scale(2500, 30000),
 		"peq": scale(4000, 60000), "annot": scale(2500, 30000), "gen": scale(2500, 40000), "vph": scale(4000, 80000),
-		"http": scale(8000, 120000), "e2e": scale(250, 4000), "params": scale(3000, 40000),
+		"http": scale(8000, 120000), "e2e": scale(250, 4000), "params": scale(3000, 40000), "seq": scale(600, 4000),
 	}
 	if over {
 		// VERIF_CASES scales the whole-request stream; helpers follow proportionally
 		n := verifN(0, 0)
-		counts = map[string]int{"accepts": n / 4, "codec": n / 4, "decode": n / 8, "unprim": n / 4, "peq": n / 2, "annot": n / 4, "gen": n / 4, "vph": n / 2, "http": n, "e2e": n / 40, "params": n / 4}
+		counts = map[string]int{"accepts": n / 4, "codec": n / 4, "decode": n / 8, "unprim": n / 4, "peq": n / 2, "annot": n / 4, "gen": n / 4, "vph": n / 2, "http": n, "e2e": n / 40, "params": n / 4, "seq": n / 8}
 	}
+	only := os.Getenv("VERIF_PF_KINDS") // debugging aid: run these record kinds only (comma-separated)
 	for _, kind := range pfKinds {
 		n := counts[kind]
+		if only != "" && !strings.Contains(","+only+",", ","+kind+",") {
+			continue
+		}
 		if pfRace {
 			n /= 6
 		}
